@@ -176,14 +176,16 @@ def run(rep):
     # the field: the caller's grid (dtype set to float64) or, by default, a unit field cloned from the flow-direction grid
     need = ("to_accumulate", "accumulation", "nodata_to_accumulate", "flowdir")
     okclone = oknod = okunit = all(pn in pargs for pn in need)
+    if not okclone:
+        rep.undecided("R11.b", "gis/grid.py", "accumulate", "arguments of the kernel call", f"not all of {need} could be bound to the call's arguments (starred / keyword form)", line=st.call.lineno)
+        return EXPLANATION
     alts = pq.split_where(('tuple', tuple(pargs[pn] for pn in need))) if okclone else []
     det = ""
     for cnds, tup in alts:
         fld, acc, nod, fd = tup[1]
         if not (pq.call_named(fld, "attr:data") and pq.call_named(acc, "attr:data") and pq.call_named(fd, "attr:data") and fd[2][0] == ('sym', 'flowdir')):
-            okclone = False
-            det = show(acc)[:120]
-            continue
+            rep.undecided("R11.b", "gis/grid.py", "accumulate", "arguments of the kernel call", f"buffers are not `.data` of grids: {show(acc)[:100]}", line=st.call.lineno)
+            return EXPLANATION
         FIELD = fld[2][0]
         if not _is_deep_copy_of(acc[2][0], FIELD):
             okclone = False
